@@ -47,7 +47,7 @@ def units(ctx):
            for c in cc.merge_contracts()]
     us += [contract_unit(c, world_setup=colls2.setup_byint)
            for c in colls2.contracts()]
-    us += [contract_unit(c, world_setup=cc.setup_mem)
+    us += [contract_unit(c, world_setup=cc.setup_functional)
            for c in cc.functional_contracts()]
     us += [contract_unit(c, world_setup=cc.setup_dicts)
            for c in cc.dict_builder_contracts()]
